@@ -126,6 +126,19 @@ def text_ops(text):
                "source": 'def f(x, y=1):\n    """%s"""\n    return x\n' % body}
         yield {"kind": "parse_emit", "parser": "class_", "emitter": "function", "opts": {"docstring_format": "google"},
                "source": 'class K(object):\n    """%s"""\n\n    x: int = 1\n' % body}
+        # the other public parsers, each with the text where it reads prose from
+        yield {"kind": "parse_source", "parser": "sqlalchemy",
+               "source": 'class T(Base):\n    """%s"""\n\n    __tablename__ = "t"\n\n'
+                         '    x = Column(Integer, primary_key=True)\n' % body}
+        yield {"kind": "parse_source", "parser": "pydantic",
+               "source": 'class P(BaseModel):\n    """%s"""\n\n    x: int = 1\n' % body}
+        yield {"kind": "parse_source", "parser": "argparse_function",
+               "source": 'def set_cli_args(argument_parser):\n    """%s"""\n    argument_parser.description = %r\n'
+                         '    argument_parser.add_argument("--x", type=int, default=1, help=%r)\n'
+                         '    return argument_parser\n' % (body, text, text)}
+        yield {"kind": "parse_source", "parser": "json_schema",
+               "source": json.dumps({"$id": "https://example.com/k.schema.json", "type": "object", "description": text,
+                                     "properties": {"x": {"type": "integer", "description": text}}, "required": ["x"]})}
 
 
 def spec_ops(rng):
